@@ -84,9 +84,9 @@ LOCK_RULE = ("proof obligations are `decide`d over tables regenerated from the c
 
 FS_RUN = dict(
     model="filesink", sub="filesink", driver="filesink",
-    quick=["-n", "300", "-conc", "14", "-kill", "6"],
-    thorough=["-n", "6000", "-conc", "60", "-kill", "80"],
-    search=["-n", "2000", "-conc", "20", "-kill", "20"],
+    quick=["-n", "300", "-conc", "14", "-kill", "24"],
+    thorough=["-n", "6000", "-conc", "60", "-kill", "300"],
+    search=["-n", "2000", "-conc", "20", "-kill", "60"],
 )
 FS_ASSUME = [
     "one write(2) on an O_APPEND regular file is all-or-nothing under SIGKILL; rename/unlink/open behave as on Linux (inode semantics)",
@@ -208,8 +208,9 @@ PROPS = {
     "C08": dict(
         module="Evl.Props.C08",
         theorems=["Evl.C08.no_loss_without_retention", "Evl.C08.nothing_invented", "Evl.C08.retention_only_removes", "Evl.C08.step_holds",
-                  "Evl.C08.open_contents", "Evl.C08.append_contents", "Evl.C08.exactly_once_in_order", "Evl.C08.suffix_under_retention"],
-        runs=[FS_RUN], oracle_prefixes=["C08"], models=["M5 FileSink"],
+                  "Evl.C08.open_contents", "Evl.C08.append_contents", "Evl.C08.exactly_once_in_order", "Evl.C08.suffix_under_retention",
+                  "Evl.C08.rotation_is_one_rename"],
+        runs=[FS_RUN], oracle_prefixes=["C08"], models=["M5 FileSink", "Generated.Decisions(rotateOsCalls)"],
         trusted_base=TB_COMMON,
         assumptions=FS_ASSUME + ["exactly once / order across files (MaxFiles = 0, every history) and the suffix shape under retention (histories without external renames) are Lean theorems over the ordering invariant Ord; partial: concurrent writers are serialised by FileSink.l (C19 facts + concurrent-writer runs) and crash atomicity rests on write(2)/O_APPEND, exercised by the SIGKILL child"],
         rule=FS_RULE,
@@ -287,7 +288,7 @@ PROPS = {
         module="Evl.Props.C11",
         theorems=["Evl.C11.conservation_step", "Evl.C11.conservation", "Evl.C11.no_duplication", "Evl.C11.passthrough",
                   "Evl.C11.no_id_rejected", "Evl.C11.never_gateable_via_broker", "Evl.C11.flush_trigger",
-                  "Evl.C11.grouping_step", "Evl.C11.grouping"],
+                  "Evl.C11.grouping_step", "Evl.C11.grouping", "Evl.C11.sections_on_source"],
         runs=[GATED_RUN, race_run("gated", 15, 300, 100)], oracle_prefixes=["C11"], models=["M6 Gated"],
         trusted_base=TB_COMMON, assumptions=GATED_ASSUME + ["grouping / arrival order: proved as a refinement of the per-id queue specification (Evl.Lemmas.GatedSpec) for every history from the empty gate; concurrent senders are serialised by Filter.l (C19 facts + race scenario gated)"],
         rule=GATED_RULE,
